@@ -8,7 +8,7 @@ from gen import zoo
 from vlib import core, zoorun
 
 LEVEL = "exploration"
-OPS = ["construct", "view", "at", "copy", "move", "copy-assign", "move-assign", "configuration", "dump", "load", "convert"]
+OPS = ["construct", "view", "at", "copy", "move", "copy-assign", "move-assign", "configuration", "dump", "load", "convert", "construct-from-extents"]
 
 HDR = r'''
 #include <covfie/core/backend/primitive/array.hpp>
@@ -137,7 +137,7 @@ def run(ctx):
               "plus every member of the conversion family [affine][interpolator] order array; for each stack a program constructs from a parameter "
               "pack (and default-constructs), makes a view (trivially copyable, <= 256 bytes, bitwise copy answers alike), looks up both forms, "
               "copy- and move-constructs, copy-assigns (incl. self), move-assigns, reads the configuration chain and rebuilds, dumps, loads, and "
-              "converts (copy and move) from a compatible stack with another storage order and interpolator; every member is compiled AND run under "
+              "converts (copy and move) from a compatible stack with another storage order and interpolator, and (row-major stacks) is built from a pack that ends with the extents, passed as a temporary and as a named object; every member is compiled AND run under "
               "ASan+UBSan with assertions on, and after every member the resulting field is compared with the reference interpreter.  A stack "
               "that does not compile is re-compiled one member at a time (-fsyntax-only) and reported as compile:<member>:<header>.  Ill-kinded "
               "half: a catalogue of %d compositions that violate a stated kind must be rejected by the compiler, each with a well-kinded twin that "
